@@ -10,7 +10,7 @@ import (
 
 func init() {
 	Register(&Prop{
-		ID: "C18", Bubble: true, Run: runC18, QuickRuns: 3000,
+		ID: "C18", Bubble: true, ArmLockProbes: true, Run: runC18, QuickRuns: 3000,
 		ExpectedProbes: []string{"reset", "concurrent_measurement_checked"},
 		Rule: "one run = one measurement primitive (Minimum, Single, ExponentialAverage, SimpleExponentialMovingAverage, SimpleMovingVariance, WindowlessMovingPercentile, ImmutableSampleWindow) with seeded constructor parameters and a history of up to 200 Add / Get / Reset / Update operations over finite positive samples (backend rtts, powers of two, near-equal values); " +
 			"oracle: reference fold per primitive (min since reset, last value, arithmetic mean during warm-up then a value inside the hull of the samples, variance >= 0, window = exact summary independent of order, receiver unchanged), Reset == fresh instance (twin run on the remaining history), flag true whenever the stored value changed; " +
@@ -127,12 +127,17 @@ func runC18(r *Run) {
 	n := 5 + t.Intn(scale(196, 600), "ops")
 	base := []float64{1e6, 100, 5e7, 3}[t.Intn(4, "base")]
 	var ops []measOp
+	prevX, havePrev := 0.0, false
 	for i := 0; i < n; i++ {
 		k := t.Pick([]int{12, 2, 1, 1}, "op")
 		op := measOp{kind: k}
 		switch k {
 		case 0:
 			op.x = drawSampleValue(t, base)
+			if havePrev && t.Chance(20, "repeat-sample") {
+				op.x = prevX // runs of identical samples: zero deltas, unchanged minima, flags that must stay false
+			}
+			prevX, havePrev = op.x, true
 		case 3:
 			op.f = t.Intn(4, "update-f")
 		}
